@@ -36,7 +36,7 @@ def explore(ctx, extended=False, focus=None):
                "(2) every constraint satisfied by the recorded witness when the run completes; (3) under true guards: same values and "
                "same error class as the unguarded twin; plus V+S+W correspondence with the model; distinct = (body operators, guard kind, "
                "guard values, bitlength, error class)")
-    n = ctx.n(500, 12000) * (3 if extended else 1)
+    n = ctx.n(3000, 40000) * (3 if extended else 1)
     cases = corpus_cases("C07") + [progs.guarded_case(ctx.rnd, f"c07_{i}") for i in range(n)]
     for i, c in enumerate(cases):
         if i % 4 == 3 and c.meta.get("shape") != "corpus":
